@@ -183,8 +183,32 @@ def render_ts(rng, spec, out: Lines, js=False):
     out.code("};" if form == "expr" else "}")
     loc = sum(1 for k in out.kinds[start:] if k == "code")
     m = sum(1 for k in spec["members"] if k in ("public", "async", "static", "classmethod"))
-    return {"name": spec["name"], "line": header_line, "form": form, "methods": m, "loc": loc, "keyword": spec["keyword"],
+    fact = {"name": spec["name"], "line": header_line, "form": form, "methods": m, "loc": loc, "keyword": spec["keyword"],
             "has_noise": any(k != "code" for k in out.kinds[start:]), "span": len(out.lines) - start}
+    if form in ("plain", "expr") and start == len(out.lines) - fact["span"] and rng.random() < 0.25:
+        # a class is a class wherever it is declared: inside a method of another class / as a static class-expression field
+        inner_lines, inner_kinds = out.lines[start:], out.kinds[start:]
+        del out.lines[start:]
+        del out.kinds[start:]
+        host = "Host%s" % spec["name"][-6:]
+        out.code("class %s {" % host)
+        if form == "plain":
+            out.code("  build() {")
+            pad, opener, closer = "    ", 2, ["    return %s;" % spec["name"], "  }", "}"]
+        else:
+            # (const X = class X {...}; becomes the static field  static X = class X {...};)
+            inner_lines[0] = inner_lines[0].replace("const %s = class" % spec["name"], "static %s = class" % spec["name"], 1)
+            pad, opener, closer = "  ", 1, ["  ready() {", "    return 1;", "  }", "}"]
+        for ln, kd in zip(inner_lines, inner_kinds):
+            out.lines.append(pad + ln if ln.strip() else ln)
+            out.kinds.append(kd)
+        for ln in closer:
+            out.code(ln)
+        fact["line"] = header_line + opener
+        fact["form"] = form + "-nested"
+        fact["host"] = {"name": host, "line": start + 1, "form": "plain", "methods": 1, "loc": sum(1 for k in out.kinds[start:] if k == "code"), "keyword": False,
+                        "has_noise": fact["has_noise"], "span": len(out.lines) - start}
+    return fact
 
 
 def render_rs(rng, spec, out: Lines):
@@ -250,7 +274,10 @@ def gen_file(rng, lang, idx, M, L, nclasses, with_noise=True):
         if lang == "py":
             facts.append(render_py(rng, spec, out))
         elif lang in ("ts", "js"):
-            facts.append(render_ts(rng, spec, out, js=(lang == "js")))
+            f_ = render_ts(rng, spec, out, js=(lang == "js"))
+            facts.append(f_)
+            if f_.get("host"):
+                facts.append(f_.pop("host"))
         else:
             facts.append(render_rs(rng, spec, out))
     return "\n".join(out.lines) + "\n", facts
